@@ -1,4 +1,6 @@
 pub mod c01;
+pub mod c02;
+pub mod c03;
 
 use symcore::Config;
 
@@ -6,6 +8,8 @@ pub fn instances(prop: &str, tier: &str, seed: u64) -> Vec<String> {
     let _ = seed;
     match prop {
         "C01" => c01::instances(tier),
+        "C02" => c02::instances(tier),
+        "C03" => c03::instances(tier),
         _ => vec![],
     }
 }
@@ -15,6 +19,8 @@ pub fn configure(_prop: &str, _inst: &str, _cfg: &mut Config) {}
 pub fn body(prop: &str, inst: &str) {
     match prop {
         "C01" => c01::body(inst),
+        "C02" => c02::body(inst),
+        "C03" => c03::body(inst),
         _ => panic!("unknown property {}", prop),
     }
 }
